@@ -483,14 +483,27 @@ def load_indexed_reference(reference, fai_file_name):
     # index meanwhile, and every run after a kill in that window, gets an empty or partial index that is newer than the
     # FASTA file, and either fails with KeyError or silently works with fewer sequences. So the index is built under
     # a name of our own and the complete file is moved into place.
-    if not os.path.exists(fai_file_name) or os.path.getmtime(fai_file_name) < os.path.getmtime(reference):
-        tmp_fai_file_name = "%s.%s.tmp" % (fai_file_name, uuid.uuid4().hex)
+    def missing_or_stale(index_file_name):
+        return not os.path.exists(index_file_name) or os.path.getmtime(index_file_name) < os.path.getmtime(reference)
+
+    # pyfaidx takes a .gz / .bgz file for BGZF and keeps its block index in <reference>.gzi: it writes that file in place
+    # as well, and rebuilds the .fai IN PLACE whenever the .gzi is missing, so both are built under temporary names
+    gzi_file_name = reference + ".gzi"
+    needs_gzi = reference.lower().endswith(('.gz', '.bgz'))
+    if missing_or_stale(fai_file_name) or (needs_gzi and missing_or_stale(gzi_file_name)):
+        tmp_suffix = ".%s.tmp" % uuid.uuid4().hex
+        tmp_fai_file_name = fai_file_name + tmp_suffix
+        tmp_gzi_file_name = gzi_file_name + tmp_suffix
         try:
-            Fasta(reference, indexname=tmp_fai_file_name).close()
+            # a plain-gzip file raises UnsupportedCompressionFormat here, before anything is written
+            Fasta(reference, indexname=tmp_fai_file_name, gzi_indexname=tmp_gzi_file_name).close()
+            if os.path.exists(tmp_gzi_file_name):
+                os.replace(tmp_gzi_file_name, gzi_file_name)
             os.replace(tmp_fai_file_name, fai_file_name)
         finally:
-            if os.path.exists(tmp_fai_file_name):
-                os.remove(tmp_fai_file_name)
+            for tmp_file_name in (tmp_fai_file_name, tmp_gzi_file_name):
+                if os.path.exists(tmp_file_name):
+                    os.remove(tmp_file_name)
     return Fasta(reference, indexname=fai_file_name)
 
 
